@@ -466,8 +466,15 @@ CRS = ['EPSG:3857', 'EPSG:32631', 'EPSG:3395', 'EPSG:4087', 'EPSG:2154', 'EPSG:4
        'EPSG:4277', 'EPSG:4230']     # the last two: geographic CRSs on another datum (a degree pair that is *not* the input, C19-t2)
 
 
+SRC_THEOREMS = ['GV.C19Src.' + t for t in (
+    'convert_eq', 'toDms_eq', 'fromDms_convert_eq', 'fromDms_eq', 'zeroPadStr_eq', 'zeroPadInt_eq', 'toQdms_eq',
+    'parseFloat_seconds', 'fromQdms_convert_eq', 'fromQdms_eq', 'toQdms_dotFree',
+    'src_dms_roundtrip', 'src_dms_hemisphere', 'src_qdms_roundtrip', 'src_qdms_lengths')]
+
+
 def check(run):
     run.prove(MODULE, THEOREMS)
+    run.source_tie(['SrcDms'], 'GeoVerif.Props.C19Src', SRC_THEOREMS)
     rng = run.rng
     coords = gen_coords(run)
 
